@@ -68,7 +68,7 @@ def gen(rng, tier, index):
     cfg["ftol"] = 0.0
     if rng.random() < 0.3:
         cfg["logger"] = "collect"
-        cfg["iprint"] = int(choice(rng, [0, 1, 99, 101]))
+        cfg["iprint"] = int(choice(rng, [-1, 0, 1, 99, 101]))
     plan = {
         "problem": spec,
         "cfg": cfg,
